@@ -303,7 +303,12 @@ fn valued_tokens(root: &'static Spec) -> Vec<Vec<u8>> {
 }
 
 pub fn rob_case() -> BoxedStrategy<RobCase> {
-    (0..SHAPES.len())
+    (0..SHAPES.len()).prop_flat_map(rob_case_for).boxed()
+}
+
+/// lines for one shape of the family (by index into SHAPES)
+pub fn rob_case_for(si: usize) -> BoxedStrategy<RobCase> {
+    Just(si)
         .prop_flat_map(|si| {
             let spec = SHAPES[si].spec;
             let mutated = (valid_line(spec), prop::collection::vec(mutation(spec), 0..4)).prop_map(|(a, mus)| apply(a, &mus)).boxed();
